@@ -25,6 +25,7 @@ def run(ctx):
     ctx.guarded("R-C17-skipped", skipped, ctx, prog)
     ctx.guarded("R-C17-index", index_in_range, ctx, prog)
     ctx.guarded("R-C17-monotone", cursor_writers, ctx, prog)
+    ctx.guarded("R-C17-key", group_key, ctx, prog)
 
 
 def skipped(ctx, prog):
@@ -159,24 +160,72 @@ def membership(ctx, prog):
         ctx.violation(rule, rc.id, "member removed once only",
                       "remove_client no longer removes every occurrence of the client while add_client can list a member more than once (repeated SUBSCRIBE): a stale entry keeps the turn and the group's messages are forwarded to nobody",
                       site=rc.fn_loc())
-    # removal sites drop empty groups
+    # removal sites drop empty groups; the UNSUBSCRIBE site leaves the group of the filter given up and no other
     sites = 0
+    MAPC = [r"HashMap::<K, V, S(, A)?>::get_mut$", r"Option::<T>::unwrap$", r"Entry::<'a, K, V(, A)?>::or_insert(_with)?$", r"HashMap::<K, V, S(, A)?>::entry$"]
     for body, bb, t in call_sites(prog, r"SharedGroup::remove_client$"):
         sites += 1
-        if not body.kind == "Closure":
-            ctx.violation(rule, body.id, "remove_client outside retain", "a member is removed without dropping the group if it became empty", site=body.loc(t.get("sp")))
+        root = body.root if body.kind == "Closure" else body.id
+        per_filter = bool(re.search(r"Router::handle_device_payload$", root or ""))   # UNSUBSCRIBE
+        if body.kind == "Closure":
+            empties = [b2 for b2, t2 in body.calls() if callee_path(t2).endswith("SharedGroup::is_empty")]
+            parent = prog.A.get(body.root or "")
+            used_in_retain = False
+            if parent:
+                for b3, t3 in parent.calls():
+                    if callee_path(t3).endswith("HashMap::<K, V, S, A>::retain") and any(s.kind == "agg" and s.adt == body.id for a in t3["args"] for s in flatten_src(provenance(parent, a))):
+                        used_in_retain = True
+            if empties and used_in_retain:
+                ctx.ok(rule, body.id, "remove_client inside shared_subscriptions.retain(.. !is_empty())", site=body.loc(t.get("sp")))
+            else:
+                ctx.violation(rule, body.id, "empty group kept", "after removing a member the (possibly empty) group is kept: update_next_client would divide by zero / messages would be read for nobody", site=body.loc(t.get("sp")))
+            if per_filter:
+                # inside retain(|key, group| ..) the removal must be guarded by a comparison of the key
+                dom = dominators(body)
+                guarded = False
+                for d in dom.get(bb, ()):
+                    bt = body.blocks[d]["t"]
+                    if bt["k"] != "switch":
+                        continue
+                    for x in flatten_src(provenance(body, bt["on"])):
+                        if x.kind == "call" and re.search(r"PartialEq(<.*>)?>::(eq|ne)$|::eq$|::ne$", x.path):
+                            for a in body.blocks[x.bb]["t"]["args"]:
+                                if any(y.kind == "param" and y.l == 2 for y in flatten_src(provenance(body, a))):
+                                    guarded = True
+                if guarded:
+                    ctx.ok(rule, body.id, "UNSUBSCRIBE: the removal inside retain is guarded by a comparison of the group key", site=body.loc(t.get("sp")))
+                else:
+                    ctx.violation(rule, body.id, "UNSUBSCRIBE leaves every group",
+                                  "giving up ONE filter removes the client from EVERY shared group (retain over all of shared_subscriptions with an unconditional remove_client): its other shared subscriptions keep their data requests but are never the group's current client again, "
+                                  "and once such a group is gone the request reads from its own cursor what another member was just served", site=body.loc(t.get("sp")))
             continue
-        empties = [b2 for b2, t2 in body.calls() if callee_path(t2).endswith("SharedGroup::is_empty")]
-        parent = prog.A.get(body.root or "")
-        used_in_retain = False
-        if parent:
-            for b3, t3 in parent.calls():
-                if callee_path(t3).endswith("HashMap::<K, V, S, A>::retain") and any(s.kind == "agg" and s.adt == body.id for a in t3["args"] for s in flatten_src(provenance(parent, a))):
-                    used_in_retain = True
-        if empties and used_in_retain:
-            ctx.ok(rule, body.id, "remove_client inside shared_subscriptions.retain(.. !is_empty())", site=body.loc(t.get("sp")))
+        # a plain site: one group looked up by key, removed from the map when it became empty
+        recv = flatten_src(provenance(body, t["args"][0], through_calls=MAPC))
+        from_map = any(getattr(x, "fields", None) and x.fields[-1] == "shared_subscriptions" for x in recv)
+        drops = False
+        cur, steps = t.get("t"), 0
+        empt_dest = None
+        while cur is not None and steps < 12:
+            bt = body.blocks[cur]["t"]
+            if bt["k"] == "call" and callee_path(bt).endswith("SharedGroup::is_empty"):
+                empt_dest = cur
+                break
+            if bt["k"] in ("call", "goto"):
+                cur = bt.get("t")
+            else:
+                break
+            steps += 1
+        if empt_dest is not None:
+            after = reachable_after(body, [empt_dest])
+            for b2, t2 in body.calls():
+                if b2 in after and re.search(r"HashMap::<K, V, S(, A)?>::remove$", callee_path(t2)) and not body.is_cleanup(b2):
+                    r2 = flatten_src(provenance(body, t2["args"][0]))
+                    if any(getattr(x, "fields", None) and x.fields[-1] == "shared_subscriptions" for x in r2) and dominates(body, empt_dest, b2):
+                        drops = True
+        if from_map and drops:
+            ctx.ok(rule, body.id, "remove_client on one group looked up in shared_subscriptions, which is removed when is_empty()", site=body.loc(t.get("sp")))
         else:
-            ctx.violation(rule, body.id, "empty group kept", "after removing a member the (possibly empty) group is kept: update_next_client would divide by zero / messages would be read for nobody", site=body.loc(t.get("sp")))
+            ctx.violation(rule, body.id, "remove_client outside retain", "a member is removed without dropping the group if it became empty (no `is_empty()` → shared_subscriptions.remove after the call)", site=body.loc(t.get("sp")))
     ctx.floor(rule, "member removal sites", sites, 2)
 
 
@@ -277,3 +326,74 @@ def cursor_writers(ctx, prog):
                           "%s sets the shared group's cursor (to a departing member's oldest unacknowledged offset): everything forwarded to — and acknowledged by — the other members since that offset is read and forwarded again" % body.id,
                           site=body.loc(st.get("sp")))
     ctx.floor(rule, "writes of SharedGroup.cursor", n, 2)
+
+
+def group_key(ctx, prog):
+    """A SharedGroup holds ONE read cursor and ONE turn: it can serve one log only. The key under which a subscription
+    finds its group must therefore determine the filter (the MQTT shared subscription is ShareName + topic filter), not
+    the share name alone."""
+    rule = "R-C17-key"
+    body = prog.one(r"^router::routing::Router::handle_device_payload$")
+    calls = [(bb, t) for bb, t in body.calls() if callee_path(t).endswith("Router::prepare_filter") and not body.is_cleanup(bb)]
+    if len(calls) != 1:
+        raise AnchorMissing("handle_device_payload: expected one Router::prepare_filter call, found %d" % len(calls))
+    pf = prog.one(r"^router::routing::Router::prepare_filter$")
+    gi = [i for i in range(1, pf.argc + 1) if re.search(r"Option<(std::string::|alloc::string::)?String>", pf.local_ty(i))]
+    if len(gi) != 1:
+        raise AnchorMissing("prepare_filter: the group-name parameter (Option<String>) was not found")
+    # the parameter is the key of shared_subscriptions
+    keyed = False
+    for bb, t in pf.calls():
+        if re.search(r"HashMap::<K, V, S(, A)?>::entry$", callee_path(t)) and not pf.is_cleanup(bb):
+            recv = flatten_src(provenance(pf, t["args"][0]))
+            if any(getattr(x, "fields", None) and x.fields[-1] == "shared_subscriptions" for x in recv):
+                ks = flatten_src(provenance(pf, t["args"][1], through_calls=[r"ToString>::to_string$", r"Clone>::clone$", r"ToOwned>::to_owned$"]))
+                if any(x.kind == "param" and x.l == gi[0] for x in ks):
+                    keyed = True
+    if not keyed:
+        raise AnchorMissing("prepare_filter: shared_subscriptions.entry(<group parameter>) not found")
+    bb, t = calls[0]
+    leaves = flatten_src(provenance(body, t["args"][gi[0] - 1]))
+    # String-building idioms are looked through: clone/to_string/to_owned, and format!() with everything it expands to
+    TC = [r"ToString>::to_string$", r"Clone>::clone$", r"ToOwned>::to_owned$"]
+    FMT = r"^(std|core|alloc)::fmt::|hint::must_use$"
+
+    def deep(op, depth=0):
+        out = []
+        for x in flatten_src(provenance(body, op, through_calls=TC)):
+            if depth < 8 and x.kind == "agg" and not (x.adt or "").endswith("Option"):
+                for o in x.rv.get("ops", []):
+                    out += deep(o, depth + 1)
+            elif depth < 8 and x.kind == "call" and re.search(FMT, x.path):
+                for o in body.blocks[x.bb]["t"]["args"]:     # every argument, not just the receiver
+                    out += deep(o, depth + 1)
+            else:
+                out.append(x)
+        return out
+    inner = []
+    for x in leaves:
+        if x.kind == "agg" and x.var == "Some":
+            inner += deep(x.rv["ops"][0])
+    if not inner:
+        raise AnchorMissing("handle_device_payload: the group name handed to prepare_filter is never Some(..)")
+    inner = [x for x in inner if x.kind != "const"]      # the literal pieces of a format string
+    parts = {tuple(x.fields or ()) for x in inner if x.kind == "call" and x.path.endswith("extract_group")}
+    # `f.path` of the filter being subscribed (f comes out of `subscribe.filters.iter_mut()`)
+    whole = any(x.kind in ("param", "field", "call") and getattr(x, "fields", None) and x.fields[-1] == "path" and not (x.kind == "call" and x.path.endswith("extract_group")) for x in inner)
+    helper = False
+    for x in inner:
+        if x.kind == "call" and not x.path.endswith("extract_group"):
+            for a in body.blocks[x.bb]["t"]["args"]:
+                if any(y.kind in ("param", "field") and y.fields and y.fields[-1] == "path" for y in flatten_src(provenance(body, a, through_calls=TC))):
+                    helper = True
+    both = ("0", "0") in parts and ("0", "1") in parts
+    if whole or both or helper:
+        ctx.ok(rule, body.id, "the group key determines the topic filter (%s)" % ("whole subscription path" if whole else "share name and filter" if both else "built from the subscription path"), site=body.loc(t.get("sp")))
+    elif parts == {("0", "0")}:
+        ctx.violation(rule, body.id, "group keyed by share name alone",
+                      "the key of shared_subscriptions is the share name returned by extract_group without the topic filter: `$share/g/a` and `$share/g/b` (two shared subscriptions, two logs) get one SharedGroup, i.e. one turn and one read cursor — "
+                      "the member of one filter holds the turn while the other filter's messages are forwarded to nobody, and a cursor of one log is used to read the other", site=body.loc(t.get("sp")))
+    else:
+        ctx.violation(rule, body.id, "group key does not determine the filter",
+                      "the key of shared_subscriptions handed to prepare_filter is derived from %s, not from the subscription's share name and topic filter" % sorted({(x.kind, getattr(x, "path", None), tuple(getattr(x, "fields", None) or ())) for x in inner}, key=repr),
+                      site=body.loc(t.get("sp")))
